@@ -347,6 +347,94 @@ def run(shard, rec, rng):
         rec.observe("middleware_exports_replaced_after_use")
         if served["n.txt"] != ("200", b"NEW-ROOT-FILE") or served["a.txt"][0] == "200" or served["sub/b.txt"][0] == "200":
             rec.violation("C14/withdrawn-root-still-served", f"after the /static export was replaced by another directory: {served!r}", {"function": "static-file", "request_path": "exports replaced"}, monitor="response-body")
+        # ---- history: a middleware that has served ordinary files from a sub-folder for a while gets the traversal requests
+        # *afterwards* (whatever it remembers about the folder, every request is checked)
+        warmed = SD.SharedDataMiddleware(nf, {"/static": root})
+
+        def ask_w(mw_, path_):
+            env_ = create_environ()
+            env_["PATH_INFO"] = path_
+            it_, st_, _ = run_wsgi_app(mw_, env_)
+            body_ = b"".join(it_)
+            if hasattr(it_, "close"):
+                it_.close()
+            return st_[:3], body_
+
+        for warm in ("/static/sub/b.txt", "/static/a.txt", "/static/sub/b.txt"):
+            ask_w(warmed, warm)
+        for attack in ("sub/../../secret.txt", "sub/./../../secret.txt", "sub/../../root-private/secret2.txt", "sub/../../root.bak", "a.txt/../../secret.txt", "sub/b.txt/../../../secret.txt",
+                       "sub/../../../" + os.path.basename(top) + "/secret.txt", "sub//../../secret.txt", "sub/..\\..\\secret.txt"):
+            got_w = ask_w(warmed, "/static/" + attack)
+            rec.case()
+            rec.nontrivial(("warmed-up-middleware", attack))
+            rec.observe("traversal_requests_to_a_warmed_up_middleware")
+            if b"SENTINEL-SECRET" in got_w[1]:
+                rec.violation("C14/sentinel-served", f"after ordinary requests for files in /static/sub, GET /static/{attack} answered {got_w!r}", {"function": "static-file", "request_path": attack, "history": "warmed-up"}, monitor="response-body")
+                break
+        # ---- schedule: two requests for files of two exports at the same time, yields inside the middleware; each is
+        # answered from its own export
+        import sys as _sys
+        import threading as _threading
+        import time as _time
+
+        pub = os.path.join(top, "pub-export")
+        priv = os.path.join(top, "other-export")
+        for d_, txt in ((pub, "PUBLIC-README"), (priv, "SENTINEL-SECRET of the other export")):
+            os.makedirs(d_, exist_ok=True)
+            with open(os.path.join(d_, "readme.txt" if d_ == pub else "data.txt"), "w") as f:
+                f.write(txt)
+        both = SD.SharedDataMiddleware(nf, {"/pub": pub, "/other": priv})
+        mon_ = _sys.monitoring
+        try:
+            mon_.use_tool_id(5, "verif-yield-c14")
+            have_tool = True
+        except ValueError:
+            have_tool = False
+        if have_tool:
+            codes_ = [f_.__code__ for f_ in vars(SD.SharedDataMiddleware).values() if hasattr(f_, "__code__")]
+            for c_ in list(codes_):
+                codes_ += [k_ for k_ in c_.co_consts if hasattr(k_, "co_code")]
+            jit = __import__("random").Random(idx)
+            mon_.register_callback(5, mon_.events.LINE, lambda code, line: _time.sleep(jit.choice((0, 0, 0.0002, 0.001))))
+            for c_ in codes_:
+                mon_.set_local_events(5, c_, mon_.events.LINE)
+            old_si = _sys.getswitchinterval()
+            _sys.setswitchinterval(1e-5)
+            wrong_ = []
+            try:
+                for rnd in range(6):
+                    start_ = _threading.Barrier(4)
+
+                    def hit(i):
+                        path_, want_ = (("/pub/readme.txt", b"PUBLIC-README"), ("/other/data.txt", b"SENTINEL-SECRET of the other export"), ("/pub/readme.txt", b"PUBLIC-README"), ("/nowhere/x", b"nf"))[i]
+                        start_.wait()
+                        _time.sleep(i * 0.0003)
+                        for _k in range(5):
+                            try:
+                                got_ = ask_w(both, path_)
+                            except Exception as e:  # noqa: BLE001
+                                got_ = ("EXC", type(e).__name__.encode())
+                            if got_[1] != want_:
+                                wrong_.append((path_, got_))
+                                return
+
+                    ts_ = [_threading.Thread(target=hit, args=(i,)) for i in range(4)]
+                    for t_ in ts_:
+                        t_.start()
+                    for t_ in ts_:
+                        t_.join(60)
+                    rec.case()
+                    rec.nontrivial(("concurrent-exports", rnd))
+                    rec.observe("concurrent_requests_to_two_exports", 20)
+                    if wrong_:
+                        break
+            finally:
+                _sys.setswitchinterval(old_si)
+                for c_ in codes_:
+                    mon_.set_local_events(5, c_, 0)
+                mon_.free_tool_id(5)
+            if wrong_:
+                rec.violation("C14/export-serves-another-exports-directory", f"four requests at the same time: {wrong_[0][0]!r} was answered {wrong_[0][1]!r}", {"function": "static-file", "request_path": wrong_[0][0], "schedule": "concurrent"}, monitor="response-body")
         # ---- configuration + history: exports whose directories do not exist yet when the middleware is built (an
         # upload area created on first use) next to exports that do; each URL prefix only ever serves its own directory
         for order in ("missing-first", "missing-middle", "missing-last"):
